@@ -256,6 +256,9 @@ fn prior_states() -> Vec<Vec<Op>> {
         vec![Op::Write(0xF9, 0x3F), Op::Write(0xF2, 0xC6), Op::J1(true), Op::Write(0xF2, 0x85), Op::Write(0xF1, 0x40)],
         vec![Op::Input(9, 1)],
         vec![Op::Input(9, 2), Op::Write(0xF9, 0x3F)],
+        // the board's interrupt enabled (IE) and its flip-flop raised from outside: jumper 1 (level), UIO2 (edge)
+        vec![Op::Write(0xF2, 0xE6), Op::J1(true), Op::Write(0xFE, 0x21)],
+        vec![Op::Write(0xF9, 0x3F), Op::Write(0xF2, 0xF2), Op::Uio2(true)],
         vec![Op::Write(0xF9, 0x01), Op::Write(0xF0, 200), Op::Write(0xF1, 50), Op::Ai1(30), Op::Write(0xF2, 0x87), Op::Write(0xF2, 0xC4), Op::Di1(0x99)],
     ]
 }
@@ -553,7 +556,7 @@ pub fn run() {
     for &a in &addrs {
         // bytes that mean something at this address come on top of the generic ones
         let special: &[u8] = match a {
-            0xF2 => &[0x05, 0x87, 0xC6, 0xCE, 0xC2],
+            0xF2 => &[0x05, 0x87, 0xC6, 0xCE, 0xC2, 0xE6, 0xEE, 0xF2],
             0xF9 => &[0x30, 0x3E],
             0xFD => &[0x9B, 0x7F],
             _ => &[],
@@ -710,7 +713,7 @@ pub fn run() {
     ctx.set("traces_validated_against_impl", stats.transitions as u64 + singles + pairs + io_pairs);
     ctx.set("evaluations", stats.transitions as u64 + singles + pairs + io_pairs);
     ctx.set("distinct_nontrivial", stats.states);
-    ctx.set("rule", "single: write(a,v) then read, all 256 x 256, from 6 prior states on 3 base buses; pairs: all 65 536 ordered address pairs x 2 value pairs, and inside the I/O page every ordered pair of (address, value) writes (quick: 32 first values); BFS: every sequence of the operation alphabet to the depth, states deduplicated on the reference state plus the derived Debug of the real bus and the kind of the last operation; every address read and written by executed instructions (7 forms x 256 addresses x 6 prior states); 16 long traces of 30 000 operations; after every operation all 256 addresses are read and RAM, outputs, MICR bit and the board are compared with REF-BUS; every read is checked to leave the Bus value unchanged (PartialEq)");
+    ctx.set("rule", "single: write(a,v) then read, all 256 x 256, from 8 prior states (two with the board interrupt enabled and its flip-flop raised from outside) on 3 base buses; pairs: all 65 536 ordered address pairs x 2 value pairs, and inside the I/O page every ordered pair of (address, value) writes (quick: 32 first values); BFS: every sequence of the operation alphabet to the depth, states deduplicated on the reference state plus the derived Debug of the real bus and the kind of the last operation; every address read and written by executed instructions (7 forms x 256 addresses x 6 prior states); 16 long traces of 30 000 operations; after every operation all 256 addresses are read and RAM, outputs, MICR bit and the board are compared with REF-BUS; every read is checked to leave the Bus value unchanged (PartialEq)");
     ctx.set("exhaustive", !stats.cap_hit);
     ctx.set("bounds", format!("BFS depth {} over {} operations (20 addresses x 5-10 values writes, 20 reads, 4 input setters, 5 board setters, cpu/master reset, RAM reset)", depth, alphabet.len()));
     ctx.set("bfs_states", stats.states);
